@@ -45,12 +45,33 @@ let status_seq id calls =
         (bi (cs_committed v)) (bi (cs_rolledback v))
     | _ -> failwith ("bad call " ^ call) in
   print_endline ("S " ^ id ^ " " ^ String.concat "," (List.map one (String.split_on_char ',' calls)))
+(* getTxnStatusFromLock sequences:  L <id> <txn>;<pess>;<ttl>;<answer>/...,...   answer = ttl:commit:action | nf ; "-" = empty script
+   answer:  L <id> <ttl.commit.action | err>|<rine.curmax.pess>/...,... *)
+let age_ms = 10000
+let lock_seq id calls =
+  let cache = ref [] in
+  let one call = match String.split_on_char ';' call with
+    | [txn; pess; ttl; sc] ->
+      let script = if sc = "-" then [] else List.map (fun a ->
+        if a = "nf" then AnsNotFound else match String.split_on_char ':' a with
+          | [t; c; ac] -> AnsStatus ((n_of_int (int_of_string t), n_of_int (int_of_string c)), action_of_int (int_of_string ac))
+          | _ -> failwith ("bad answer " ^ a)) (String.split_on_char '/' sc) in
+      let li = { li_txn = n_of_int (int_of_string txn); li_ttl = n_of_int (int_of_string ttl); li_age = n_of_int age_ms; li_pess = (pess = "1") } in
+      let (((r, cache'), rqs), _) = status_from_lock !cache li script in
+      cache := cache';
+      let rs = match r with
+        | SrStatus ((vt, vc), va) -> Printf.sprintf "%d.%d.%d" (int_of_n vt) (int_of_n vc) (int_of_action va)
+        | SrScriptEnd -> "err" in
+      rs ^ "|" ^ String.concat "/" (List.map (fun q -> Printf.sprintf "%d.%d.%d" (bi q.rq_rine) (bi q.rq_cur_max) (bi q.rq_pess)) rqs)
+    | _ -> failwith ("bad call " ^ call) in
+  print_endline ("L " ^ id ^ " " ^ String.concat "," (List.map one (String.split_on_char ',' calls)))
 let () =
   try
     while true do
       let line = input_line stdin in
       match String.split_on_char ' ' (String.trim line) with
       | ["S"; id; calls] -> status_seq id calls
+      | ["L"; id; calls] -> lock_seq id calls
       | [id; h; o; sc] ->
         let hist = List.map parse_key (split ';' h) in
         let obs = List.map parse_obs (split ',' o) in
